@@ -5204,23 +5204,31 @@ class DfaCompileCtx:
                     continue
 
                 visited = set()
-                def consider(transition):
-                    return not any(x.get_target_override_mode() in [ActionOverrideMode.ALWAYS_GOTO_OTHER, ActionOverrideMode.ALWAYS_GOTO_UNDEFINED] and transition.target not in x.get_target_override_targets() for x in transition.actions)
+                def continues_at(transition):
+                    # Where does control continue, without consuming anything, after taking this transition?
+                    for x in transition.actions:
+                        if x.get_target_override_mode() == ActionOverrideMode.ALWAYS_GOTO_UNDEFINED:
+                            return []
+                        elif x.get_target_override_mode() == ActionOverrideMode.ALWAYS_GOTO_OTHER:
+                            # e.g. a break: the loop's end state takes over
+                            return x.get_target_override_targets()[:1]
+                    return [transition.target]
 
                 def aux(x):
                     if isinstance(x, DFConditionPoint):
                         for i in x.transitions:
-                            if i.target in visited:
-                                continue
-                            if consider(i):
-                                visited.add(i.target)
-                                aux(i.target)
+                            for target in continues_at(i):
+                                if target in visited:
+                                    continue
+                                visited.add(target)
+                                aux(target)
                     else:
                         real_target = x[transition.on_values]
-                        if real_target and real_target.is_fallthrough and consider(real_target):
-                            if real_target.target not in visited:
-                                visited.add(real_target.target)
-                                aux(real_target.target)
+                        if real_target and real_target.is_fallthrough:
+                            for target in continues_at(real_target):
+                                if target not in visited:
+                                    visited.add(target)
+                                    aux(target)
                 
                 aux(state)
 
